@@ -207,8 +207,9 @@ def run_cases(prop, tier, hib_values=(False, True)):
         mech, _, objective = mech.partition(":")
         for hib in hib_values:
             for L in ((2,) if tier == "quick" else (1, 2)):
-                cs.append(dict(name=f"run.{'-'.join(kinds)}.{mech}{'.' + objective if objective else ''}.hib{hib}.L{L}.steps{steps}", fn=h_run,
-                               params=dict(kinds=list(kinds), props=[prop], steps=steps, mech=mech, hibernation=hib, L=L, pop=pop,
+                st = steps if len(kinds) == 2 else min(steps, 5)  # 3-level runs fork on more local-stop verdicts per step
+                cs.append(dict(name=f"run.{'-'.join(kinds)}.{mech}{'.' + objective if objective else ''}.hib{hib}.L{L}.steps{st}", fn=h_run,
+                               params=dict(kinds=list(kinds), props=[prop], steps=st, mech=mech, hibernation=hib, L=L, pop=pop,
                                            objective=objective or "smooth",
                                            max_consultations=400, generations=2 if len(kinds) == 2 else 1),
                                profile="fp", budget_s=900 if tier == "quick" else 3000, max_paths=200000, weight=steps * len(kinds)))
